@@ -1,6 +1,10 @@
 #!/bin/bash
 # Runs every thorough tier once, sequentially (each uses all 16 cores); prints one summary line per check.
-cd /verif
+cd "$(dirname "$0")/.."
+if [ -n "$VP_RUN_REPO" ]; then      # inside `vp run --with-repo`: use the repo snapshot; the two generated, git-ignored sources come from /repo
+  export VERIF_REPO=$VP_RUN_REPO
+  cp -n /repo/src/expr-info.cc $VP_RUN_REPO/src/ 2>/dev/null; cp -n /repo/nl-writer2/include/mp/nl-opcodes.h $VP_RUN_REPO/nl-writer2/include/mp/ 2>/dev/null
+fi
 for id in C17 C18 C03 C05 C08 C13 C16 C15 C11 C10 C02 C14 C01 C04 C06 C07 C09 C12 C19 C20; do
   s=$(date +%s)
   out=$(./check $id --tier thorough 2>&1); rc=$?
